@@ -12,6 +12,7 @@ import (
 	xocsp "golang.org/x/crypto/ocsp"
 
 	"github.com/gr33nbl00d/caddy-revocation-validator/config"
+	"github.com/gr33nbl00d/caddy-revocation-validator/crl"
 
 	"verif/h/fw"
 	"verif/h/rt/vsched"
@@ -437,6 +438,82 @@ func c01Cross(chk *fw.Check) int {
 			}
 			w.Cleanup()
 		})
+		// (8) what an earlier handshake was told does not outlive the reason for it: (a) the certificate is presented
+		// while its distribution point is down / serves an error page (accepted, crl_cdp_strict is off), the origin
+		// recovers, the certificate is presented again; (b) certificate A is accepted (its list does not name it), a
+		// second certificate of the same CA brings another distribution point whose list names A's serial, A comes again.
+		// Also after a restart on the same work_dir with the origin down again (disk: the persisted list answers).
+		for _, first := range []string{"down", "error-page", "other-list"} {
+			first := first
+			seqWorld(func() {
+				net := world.NewNet()
+				dir := FreshDir("c01e")
+				defer os.RemoveAll(dir)
+				storage := "memory"
+				if disk {
+					storage = "disk"
+				}
+				const url2 = "http://crl.test/c01-second.crl"
+				a := world.Issue(p.CA, world.CertOpt{CN: "c01 e", Serial: big.NewInt(661), KeyKind: "ec", KeyIdx: 5, CDP: []string{c01CRLURL}})
+				b := world.Issue(p.CA, world.CertOpt{CN: "c01 e2", Serial: big.NewInt(662), KeyKind: "ec", KeyIdx: 5, CDP: []string{url2}})
+				listing := world.SimpleCRL(p.CA, 2, 661).DER()
+				switch first {
+				case "down":
+					net.Down(c01CRLURL)
+				case "error-page":
+					net.Routes[c01CRLURL] = &world.Behaviour{Label: "503", Status: 503, Body: []byte("<html>maintenance</html>")}
+				case "other-list":
+					net.Serve(c01CRLURL, "not-naming-A", world.SimpleCRL(p.CA, 1, 669).DER())
+				}
+				mk := func() *TW {
+					return NewTW(TWOpt{Mode: "crl_only", Net: net, CRL: &config.CRLConfig{WorkDir: dir, StorageType: storage, UpdateInterval: "10m"}})
+				}
+				w := mk()
+				if err := w.Provision(); err != nil {
+					chk.Violation("C01|premise|provision-failed", "earlier-answer history: "+err.Error(), nil)
+					return
+				}
+				vsched.Drain()
+				if v := w.Handshake(world.Chain(a, p.CA, p.Root)); v.Rejected() {
+					chk.Violation("C01|premise|earlier-answer", fmt.Sprintf("history %s: the first handshake (no list names the certificate) was rejected: %s %s", first, v, v.Err), nil)
+					w.Cleanup()
+					return
+				}
+				vsched.Drain()
+				if first == "other-list" {
+					net.Serve(url2, "naming-A", listing)
+					w.Handshake(world.Chain(b, p.CA, p.Root))
+				} else {
+					net.Serve(c01CRLURL, "naming-A", listing)
+				}
+				vsched.Drain()
+				sig := "C01|listed-accepted|history=accepted-before-the-list-was-in-force(" + first + ")|" + be(disk)
+				if v := w.Handshake(world.Chain(a, p.CA, p.Root)); !v.Rejected() {
+					chk.Violation(sig, fmt.Sprintf("history %s: the certificate was accepted once (no list named it yet); now a list in force names it and it is still accepted (%s)", first, v), nil)
+				}
+				n++
+				w.Cleanup()
+				vsched.Drain()
+				if disk {
+					crl.VerifReset()
+					net.Down(c01CRLURL)
+					net.Down(url2)
+					w2 := mk()
+					if err := w2.Provision(); err != nil {
+						chk.Violation("C01|premise|provision-failed", "earlier-answer history, restart: "+err.Error(), nil)
+						return
+					}
+					vsched.Drain()
+					cert := a
+					if v := w2.Handshake(world.Chain(cert, p.CA, p.Root)); first != "other-list" && !v.Rejected() {
+						chk.Violation(sig+"|after-restart", fmt.Sprintf("history %s, restart with the origin down: the persisted list names the certificate and it is accepted (%s)", first, v), nil)
+					}
+					n++
+					w2.Cleanup()
+					vsched.Drain()
+				}
+			})
+		}
 		// (5) a list in force stays in force when a later refresh obtains something which is not accepted
 		bad := world.SimpleCRL(p.CA, 2, 631)
 		bad.BadSig = true
